@@ -27,6 +27,7 @@ which iovec call is made.
 Lemmas: `Woodpile/Proofs/EncWorldComp.lean`.
 -/
 import Woodpile.Proofs.EncWorldComp
+import Woodpile.Props.C01
 
 namespace Woodpile.Props.C01W
 open Woodpile.Hcobs Woodpile.Iovec Woodpile.Arena Woodpile.EncWorld
@@ -116,6 +117,59 @@ theorem world_roundtrip_partial (p : Params) (hp : p.Valid) (pol : Policy) (tun 
   rw [← DecProof.output_eq_decRun, hw, k3, Spec.decode_encode p hp] at h
   exact h
 
+/-! ### The decoder on the structural iovec
+
+`EncWorld.decRun` = `Decoder::new()` on a fresh iovec, any calls (`feed borrow d` = `decode`, `feed copy d`
+= `decode_copy`, `consume k`, `advance k`), `finish()`; it stops at the first decoding error, as the
+Rust `Decoder` is consumed by it.  Returns the world, the drained bytes and the verdict. -/
+
+/-- Target 3, decoder half: for every segmentation, method choice and drain schedule the decoder's
+run on the structural iovec never panics (`some`); its verdict is `Ok` exactly when `Spec.decode`
+accepts the concatenated input, and then the drained bytes followed by `flatten` of the iovec are the
+decoded data; an error is the one the batch classifier `DecProof.decodeE` assigns to the input
+(`Props/C01.dec_error_classified`).  In every case — also after an error — no backref is pending
+and everything buffered is in the stable prefix (the decoder never registers a placeholder: lag 0).
+
+On error the world holds whatever was decoded before the offending byte, plus, when the error is
+`InvalidHeaderByte(false, _)` after a short chunk, the owed `FE FD`, which `BeforeChunk::decode`
+pushes BEFORE it validates the header byte (see the last example below); nothing is claimed about
+those bytes, as the Rust API hands no output back on error. -/
+theorem dec_world_output_partial (p : Params) (hp : p.Valid) (pol : Policy) (tun : Tuning) (calls : List Call) :
+    ∃ w' dr res v', decRun p pol tun calls = some (w', dr, res) ∧ w'.iov 0 = some v' ∧ IovInv w' v' ∧
+      v'.hasPending = false ∧ w'.visible v' = w'.flat v'.slices ∧
+      (res = .ok () ↔ ∃ d, Spec.decode p (inputOf calls) = some d) ∧
+      (res = .ok () → Spec.decode p (inputOf calls) = some (dr ++ w'.flat v'.slices)) ∧
+      (∀ e, res = .error e ↔ DecProof.decodeE p (inputOf calls) = .error e) := by
+  obtain ⟨w', v', dr, res, h1, h2, h3, h4, h5, h6, h7, h8⟩ := decRun_sim p pol tun calls
+  obtain ⟨r1, r2⟩ := C01.dec_impl_refines_spec p hp (pieces calls)
+  refine ⟨w', dr, res, v', h1, h2, h3, h4, h5, ?_, ?_, ?_⟩
+  · rw [h8]
+    constructor
+    · rintro ⟨d, hd⟩; exact ⟨d, (r1 d).2 hd⟩
+    · rintro ⟨d, hd⟩; exact ⟨d, (r1 d).1 hd⟩
+  · intro hr
+    exact (r1 _).2 (h7.1 hr)
+  · intro e
+    rw [h6 e, C01.dec_error_classified]; rfl
+
+/-- C01 on both real data paths: whatever comes out of the encoder's iovec (drained ++ flattened, any
+calls), fed in any pieces, by any of the two methods, under any drain schedule, to a decoder driving
+its own iovec, is accepted, and what comes out of THAT iovec is the original input. -/
+theorem world_roundtrip_both_partial (p : Params) (hp : p.Valid) (pol pol' : Policy) (tun tun' : Tuning)
+    (calls wire : List Call) :
+    ∃ w1 dr1 v1 w2 dr2 res v2, encRun p pol tun calls = some (w1, dr1) ∧ w1.iov 0 = some v1 ∧
+      decRun p pol' tun' wire = some (w2, dr2, res) ∧ w2.iov 0 = some v2 ∧
+      (inputOf wire = dr1 ++ w1.flat v1.slices → res = .ok () ∧ dr2 ++ w2.flat v2.slices = inputOf calls) := by
+  obtain ⟨w1, dr1, v1, k1, k2, k3, _⟩ := enc_world_output_partial p hp pol tun calls
+  obtain ⟨w2, dr2, res, v2, j1, j2, _, _, _, j6, j7, _⟩ := dec_world_output_partial p hp pol' tun' wire
+  refine ⟨w1, dr1, v1, w2, dr2, res, v2, k1, k2, j1, j2, fun hw => ?_⟩
+  have hd : Spec.decode p (inputOf wire) = some (inputOf calls) := by
+    rw [hw, k3]; exact Spec.decode_encode p hp _
+  have hok : res = .ok () := j6.2 ⟨_, hd⟩
+  have := j7 hok
+  rw [hd] at this
+  exact ⟨hok, (Option.some.inj this).symm⟩
+
 /-! ### Non-vacuity: the crate's vector `"1234\xFE\xFE\xFD"`, test parameters ⟨3, 5⟩ -/
 
 def tp : Params := ⟨3, 5, 253⟩
@@ -159,5 +213,22 @@ example : (encPrefix tp noCopy exTun [.feed .borrow [0x31, 0x32, 0x33, 0x34, 0xF
       (r.w.iov 0).map fun v => (absCells r.w v, r.e.toks.map bkey, v.hasPending))
     = some ([.byte 3, .byte 0x31, .byte 0x32, .byte 0x33, .hole 6, .hole 6, .byte 0x34], [1, 6], true) := by
   decide +kernel
+
+/-- (error if any, drained, flattened rest, has_pending) after a decoder run -/
+def dobs (pol : Policy) (calls : List Call) : Option (Option DecErr × List UInt8 × List UInt8 × Bool) :=
+  (decRun tp pol exTun calls).bind fun x => (x.1.iov 0).map fun v =>
+    ((match x.2.2 with | .ok _ => none | .error e => some e), x.2.1, x.1.flat v.slices, v.hasPending)
+
+-- the wire image of "1234\xFE\xFE\xFD", split inside the 2-byte header and inside the body, drained
+example : dobs noCopy [.feed .copy [3, 0x31, 0x32, 0x33, 2], .consume 9, .feed .borrow [0, 0x34], .advance 1,
+      .feed .copy [0xFE, 0, 0]]
+    = some (none, [0x31, 0x32, 0x33, 0x34], [0xFE, 0xFE, 0xFD], false) := by decide +kernel
+example : Spec.decode tp [3, 0x31, 0x32, 0x33, 2, 0, 0x34, 0xFE, 0, 0] = some [0x31, 0x32, 0x33, 0x34, 0xFE, 0xFE, 0xFD] := by
+  decide
+-- errors: cut short (verdict at `finish`), and a bad first header digit after an empty first chunk:
+-- the owed FE FD was pushed before the header byte was rejected
+example : dobs exPol [.feed .borrow [2, 0x31]] = some (some .cutShort, [], [0x31], false) := by decide +kernel
+example : dobs exPol [.feed .copy [0], .feed .borrow [0xFD, 7]]
+    = some (some (.invalidHeaderByte false 0xFD), [], [0xFE, 0xFD], false) := by decide +kernel
 
 end Woodpile.Props.C01W
